@@ -17,6 +17,7 @@ MISC = [b'rel', b'a', b'A', b'a-b', b'a.b', b'a b', b'\xc3\xa9', b'\xff', b'~', 
         b'2024-01-02x', b'2024-01-0', b'z', b'\x7f', b'\x80', b'\x01', b'tmp', b'attic2', b'atti', b'2024-01-02.01']
 HIDDEN = [b'.hidden', b'.2024-01-02.1', b'..x', b'.attic', b'.r']
 SIG_RESPELLED = 'B-lists-lock-target-spelled-differently'
+SIG_UNKNOWN = 'omits-directory-reported-DT_UNKNOWN'
 LOCKS = ['absent', 'target', 'target', 'target', 'canonical', 'target_nonl', 'target_two', 'target_nul', 'target_nul_after', 'stale',
          'respelled', 'respelled2', 'empty', 'nl_only', 'dirlock', 'nameonly']
 SPELL = ['abs', 'abs', 'slash', 'dslash', 'rel', 'dotrel']
@@ -60,6 +61,9 @@ def gen_case(rng):
         nm = gen_name(rng)
         if nm not in ents:
             ents[nm] = gen_kind(rng, nm)
+    if rng.random() < 0.04:
+        # a file system that never fills in d_type (C15_dt_unknown_lists_nothing)
+        ents = {k: ('unknowndir' if v == 'dir' else v) for k, v in ents.items()}
     names = list(ents)
     lock = rng.choice(LOCKS)
     target = None
@@ -236,6 +240,9 @@ def evaluate(ctx, cases, res, impl=None):
             qs.append(' '.join(['ls', hexs(root), hexs(keep), b, lock] + et))
             named = '!' if (not B or fx['named'] is None) else hexs(fx['named'])
             qs.append(' '.join(['lsokn', hexs(root), hexs(keep), named, str(rc if rc >= 0 else 999), hexs(out)] + et))
+            # the same oracle told what the entries REALLY are (a directory answered as DT_UNKNOWN is a directory)
+            etr = [str(len(fx['ents']))] + [x for n, t in fx['ents'] for x in (hexs(n), 'D' if t == 'U' else t)]
+            qs.append(' '.join(['lsokn', hexs(root), hexs(keep), named, str(rc if rc >= 0 else 999), hexs(out)] + etr))
     ans = common.run_driver(drv, qs)
     k = 0
     for c, fx in zip(cases, fxs):
@@ -250,8 +257,8 @@ def evaluate(ctx, cases, res, impl=None):
             res.count('dtype=' + t)
         listed_plain = 0
         for B, (rc, out, err) in zip((False, True), fx['obs']):
-            m, ok = ans[k], ans[k + 1]
-            k += 2
+            m, ok, okreal = ans[k], ans[k + 1], ans[k + 2]
+            k += 3
             res.evaluations += 1
             impl_s = '%d %s' % (rc, hexs(out))
             if not B:
@@ -270,6 +277,16 @@ def evaluate(ctx, cases, res, impl=None):
                     'what': 'robsd-ls -m %s%s printed a listing that is not exactly the qualifying directories in '
                             'strictly descending order (%s)' % (c['mode'], ' -B' if B else '', sig),
                     'impl': impl_s, 'stderr': err[-200:].decode('latin1')})
+            if ok == '1' and okreal != '1':
+                # boundary of the d_type reading (C15_exact_set_real / C15_dt_unknown_lists_nothing,
+                # findings/C15_dt_unknown.md): reported under its own signature once known_findings.json tracks it
+                res.count('real-directory-answered-DT_UNKNOWN-omitted')
+                if common.match_known('C15', SIG_UNKNOWN) is not None:
+                    res.oracle_failures.append({
+                        'case': cc, 'signature': SIG_UNKNOWN,
+                        'what': 'robsd-ls -m %s%s omits a directory because readdir answered DT_UNKNOWN for it'
+                                % (c['mode'], ' -B' if B else ''),
+                        'impl': impl_s, 'stderr': err[-200:].decode('latin1')})
         nonlisted = len(fx['ents']) - listed_plain
         if listed_plain >= 2 and nonlisted >= 1:
             res.nontrivial.add(hashlib.sha1(repr((c['entries'], c['lock'], c['target'], c['spell'], c['mode'])).encode()).hexdigest())
